@@ -278,7 +278,7 @@ class Real(object):
         body = v[2]
         cls = self.tables[ctx].get(t)
         if cls is None or cls == "unknown":
-            return TLSExtension(extType=t).create(_ba(body[1]))
+            return TLSExtension().create(t, _ba(body[1]))     # the two-argument form sets the type as well
         e = ext_build(cls, body)
         e.extType = t if e.extType is None else e.extType
         return e
@@ -340,7 +340,7 @@ class Entry(object):
 
     def __init__(self, name, cls, build, new, val, hstype=None, exact=False, norm=None, wellformed=None,
                  lossy=False, stricter=False, reject_also=(), parse=None, write=None, model_name=None,
-                 custom_values=None, custom_lens=None, hs_len=True):
+                 custom_values=None, custom_lens=None, hs_len=True, build_create=None, create_wf=None):
         self.name = name
         self.model_name = model_name or name
         self.cls = cls
@@ -356,6 +356,8 @@ class Entry(object):
         self.reject_also = tuple(reject_also)
         self._parse = parse
         self._write = write
+        self.build_create = build_create        # value -> object through the public create*() where build() sets fields
+        self.create_wf = create_wf              # value -> the value create*() can express (canonical integers, ...)
         self.hs_len = hs_len                    # the structure starts with the 3-byte handshake length
         self.custom_values = custom_values      # formats without a Fmt tree: run -> [(kind, value)]
         self.custom_lens = custom_lens          # bytes -> [(offset, width)] of the grouped length fields
@@ -370,6 +372,19 @@ class Entry(object):
                 raise AssertionError("handshake type byte %r, expected %r" % (b[:1], self.hstype))
             return b[1:]
         return b
+
+    def parse_into(self, obj, data):
+        """run obj.parse() on model-level bytes on an EXISTING object (object reuse); None when this
+        format has no parse-into-object form"""
+        if self._parse is not None:
+            return None
+        if self.hstype is not None:
+            p = hs_parser(bytes([self.hstype]) + bytes(data))
+            obj.parse(p)
+            return p.index - 1
+        p = plain_parser(data)
+        obj.parse(p)
+        return p.index
 
     def parse(self, data):
         """run the real parser on model-level bytes -> (object, bytes consumed)"""
@@ -459,7 +474,17 @@ def entries(real):
         if len(parts[3][1]) > 32:
             parts[3] = B(parts[3][1][:32])
         return seqv(*parts)
-    add(Entry("clientHello", "ClientHello", ch_build, M.ClientHello, ch_val, hstype=HT.client_hello, wellformed=ch_wf))
+    def ch_create(v):
+        a, b, rnd, sid, suites_, comp, exts = unseq(v, 7)
+        return M.ClientHello().create((a[1], b[1]), _ba(rnd[1]), _ba(sid[1]), [x[1] for x in suites_[1]],
+                                      extensions=R.opt_exts_obj("plain", exts))
+
+    def ch_create_wf(v):
+        parts = unseq(v, 7)
+        parts[5] = L([N(0)])                  # create() always offers exactly the null compression
+        return seqv(*parts)
+    add(Entry("clientHello", "ClientHello", ch_build, M.ClientHello, ch_val, hstype=HT.client_hello, wellformed=ch_wf,
+              build_create=ch_create, create_wf=ch_create_wf))
 
     def sh_builder(ctx):
         def build(v):
@@ -492,10 +517,22 @@ def entries(real):
         parts[2] = B(hrr_random)
         return seqv(*parts)
     # the real parser chooses the dictionaries from the random it reads: the model's `serverHelloAuto` does the same
+    def sh_create(ctx_):
+        def build(v):
+            a, b, rnd, sid, suite, comp, exts = unseq(v, 7)
+            return M.ServerHello().create((a[1], b[1]), _ba(rnd[1]), _ba(sid[1]), suite[1],
+                                          extensions=R.opt_exts_obj(ctx_, exts))
+        return build
+
+    def sh_create_wf(v):
+        parts = unseq(v, 7)
+        parts[5] = N(0)
+        return seqv(*parts)
     add(Entry("serverHello", "ServerHello", sh_builder("server"), M.ServerHello, sh_val, hstype=HT.server_hello,
-              wellformed=sh_wf, model_name="serverHelloAuto"))
+              wellformed=sh_wf, model_name="serverHelloAuto", build_create=sh_create("server"), create_wf=sh_create_wf))
     add(Entry("helloRetryRequest", "ServerHello(HRR)", sh_builder("hrr"), M.ServerHello, sh_val,
-              hstype=HT.server_hello, wellformed=hrr_wf, model_name="serverHelloAuto"))
+              hstype=HT.server_hello, wellformed=hrr_wf, model_name="serverHelloAuto", build_create=sh_create("hrr"),
+              create_wf=sh_create_wf))
 
     # ---- certificates (X.509 opaque)
     def cert12_build(v):
@@ -633,6 +670,38 @@ def entries(real):
                     parts[-2] = N(1)
             return seqv(*parts)
         return wf
+    def ske_create(kind, ver, nsig):
+        def build(v):
+            o = M.ServerKeyExchange(suites[kind], ver)
+            if kind in ("dhanon", "dhe"):
+                parts = unseq(v, 3 + nsig)
+                o = o.createDH(*[_int_from(x[1]) for x in parts[:3]])
+                rest = parts[3:]
+            elif kind in ("ecdhanon", "ecdhe"):
+                parts = unseq(v, 3 + nsig)
+                o = o.createECDH(parts[0][1], parts[1][1], _ba(parts[2][1]))
+                rest = parts[3:]
+            else:
+                parts = unseq(v, 4 + nsig)
+                o = o.createSRP(_int_from(parts[0][1]), _int_from(parts[1][1]), _ba(parts[2][1]), _int_from(parts[3][1]))
+                rest = parts[4:]
+            if nsig == 3:
+                o.hashAlg, o.signAlg, o.signature = rest[0][1], rest[1][1], _ba(rest[2][1])
+            elif nsig == 1:
+                o.signature = _ba(rest[0][1])
+            return o
+        return build
+
+    def ske_create_wf(kind, nsig):
+        def wf(v):
+            n = (4 if kind.startswith("srp") else 3) + nsig
+            parts = unseq(v, n)
+            idx = (0, 1, 2) if kind.startswith("dh") else ((0, 1, 3) if kind.startswith("srp") else ())
+            for i in idx:
+                parts[i] = B(canon_int_bytes(parts[i][1]))
+            return seqv(*parts)
+        return wf
+
     for nm, kind, ver, nsig in (("skeDhAnon", "dhanon", (3, 3), 0), ("skeDhe10", "dhe", (3, 1), 1),
                                 ("skeDhe12", "dhe", (3, 3), 3), ("skeEcdhAnon", "ecdhanon", (3, 3), 0),
                                 ("skeEcdhe10", "ecdhe", (3, 1), 1), ("skeEcdhe12", "ecdhe", (3, 3), 3),
@@ -640,7 +709,8 @@ def entries(real):
                                 ("skeSrpCert12", "srpcert", (3, 3), 3)):
         add(Entry(nm, "ServerKeyExchange[%s,%s]" % (kind, ver), ske_build(kind, ver, nsig),
                   (lambda kind=kind, ver=ver: M.ServerKeyExchange(suites[kind], ver)), ske_val(kind, nsig),
-                  hstype=HT.server_key_exchange, wellformed=ske_wf(kind, nsig)))
+                  hstype=HT.server_key_exchange, wellformed=ske_wf(kind, nsig), build_create=ske_create(kind, ver, nsig),
+                  create_wf=ske_create_wf(kind, nsig)))
 
     # ---- client key exchange
     def cke(name, kind, ver, build, val, **kw):
@@ -746,8 +816,36 @@ def entries(real):
         except Exception:
             pass
         return v
+    def stp_create_wf(v):
+        # the layout create() picks for the fields: v2 iff a flag or a name, else v1 iff a chain
+        ver = v[1][1]
+        n = {0: 6, 1: 7, 2: 10}[ver]
+        parts = unseq(v[2], n)
+        chain = L([P(e[1], L([])) for e in parts[6][1]]) if ver >= 1 else L([])   # create() attaches no per-certificate extensions
+        etm, ems, name = (parts[7], parts[8], parts[9]) if ver >= 2 else (N(0), N(0), B(b""))
+        etm, ems = N(min(etm[1], 1)), N(min(ems[1], 1))
+        if etm[1] or ems[1] or name[1]:
+            return P(N(2), seqv(*(parts[:6] + [chain, etm, ems, name])))
+        if chain[1]:
+            return P(N(1), seqv(*(parts[:6] + [chain])))
+        return P(N(0), seqv(*parts[:6]))
+
+    def stp_create(v):
+        ver = v[1][1]
+        n = {0: 6, 1: 7, 2: 10}[ver]
+        parts = unseq(v[2], n)
+        kw = {}
+        if ver >= 1 and parts[6][1]:
+            if any(len(e[2][1]) for e in parts[6][1]):
+                return None                    # create() cannot attach per-certificate extensions
+            kw["client_cert_chain"] = X509CertChain([mk_x509(e[1][1]) for e in parts[6][1]])
+        if ver >= 2:
+            kw.update(encrypt_then_mac=bool(parts[7][1]), extended_master_secret=bool(parts[8][1]), server_name=_ba(parts[9][1]))
+        return M.SessionTicketPayload().create(_ba(parts[0][1]), (parts[1][1], parts[2][1]), parts[3][1], parts[5][1],
+                                               nonce=_ba(parts[4][1]), **kw)
     add(Entry("sessionTicketPayload", "SessionTicketPayload", stp_build, M.SessionTicketPayload, stp_val, exact=True,
-              wellformed=stp_wf, norm=stp_norm, lossy=True, reject_also=(ValueError,)))
+              wellformed=stp_wf, norm=stp_norm, lossy=True, reject_also=(ValueError,), build_create=stp_create,
+              create_wf=stp_create_wf))
 
     # ---- small structures
     def kse_write(o):
